@@ -61,7 +61,9 @@ func runC05(c *Ctx) {
 	ruleServeFromHead(c, "R5.7")
 	ruleNoWaitOnCancelledContext(c, "R5.6")
 	ruleSyncTriesAllPeers(c, "R5.9")
-	ruleAppendStorePut(c, "R5.10")               // a failed write leaves the head where it was: the round can still be appended later
+	ruleAppendStorePut(c, "R5.10") // a failed write leaves the head where it was: the round can still be appended later
+	ruleGateRefusesByRoundOnlyTwice(c, "R5.13")
+	ruleLayering(c, "R5.14")                     // rounds obtained by sync pass the layer that tells the aggregator the head moved
 	ruleAggregation(c, "R5.11")                  // the signature is recovered with the threshold (t of n), not more: with n in its place a round needs every node
 	ruleTestedSentinelsAreWrapped(c, "R5.12", 2) // the fallbacks that keep a node going are taken on errors recognised with errors.Is
 	ruleSignedRound(c, "R5.8", sign)             // after a halt the partial signed is head+1, the only round that can be appended
@@ -632,6 +634,7 @@ func runC10(c *Ctx) {
 	ruleResyncDecidedByRequest(c, "R10.4")
 	rulePeerAttemptStartsAtHead(c, "R10.4", tn)
 	ruleAppendStorePut(c, "R10.7")                                                      // a failed write leaves the head where it was, so the next peer can still deliver the round
+	rulePutAlwaysWrites(c, "R10.10")                                                    // the repair path relies on the raw store overwriting a round it already holds
 	ruleLayering(c, "R10.9")                                                            // the repair path is given the database itself: rounds below the head can be rewritten with verified beacons
 	ruleProducerClosesChannel(c, "R10.8", 2, "internal/net", "client", "internal/core") // a peer whose stream fails is abandoned: the channel tryNode reads from is closed on every way out
 }
@@ -888,8 +891,36 @@ func ruleSyncTriesAllPeers(c *Ctx, rule string) {
 			okRet = false
 		}
 	}
-	c.Ok(rule, "Sync tries every peer (random permutation) until one sync succeeds", c.P.Pos(fn.Pos()), okLoop && okPerm && okRet,
-		fmt.Sprintf("tryNode in a loop: %v, over rand.Perm(len(nodes)): %v, nil only after tryNode returned true: %v", okLoop, okPerm, okRet))
+	// the permutation indexes the list whose length it was drawn for
+	okIdx, idxWhy := true, "same list"
+	if tn != nil {
+		args := tn.Call.Args
+		var indexed ssa.Value
+		peer := canonValue(args[len(args)-1])
+		if u, ok := stripConv(peer).(*ssa.UnOp); ok && u.Op == token.MUL {
+			if ia, ok := u.X.(*ssa.IndexAddr); ok {
+				indexed = ia.X
+			}
+		}
+		if ix, ok := stripConv(peer).(*ssa.Index); ok {
+			indexed = ix.X
+		}
+		if indexed != nil {
+			for _, ci := range callsIn(fn, func(ci ssa.CallInstruction) bool { return calleeName(ci) == "math/rand.Perm" }) {
+				if lc, ok := stripConv(ci.Common().Args[0]).(*ssa.Call); ok {
+					if b, isB := lc.Call.Value.(*ssa.Builtin); isB && b.Name() == "len" {
+						measured := lc.Call.Args[0]
+						if canonValue(measured) != canonValue(indexed) && pathOf(measured) != pathOf(indexed) {
+							okIdx = false
+							idxWhy = "the permutation is drawn for " + trimTemps(pathOf(measured)) + " but indexes " + trimTemps(pathOf(indexed))
+						}
+					}
+				}
+			}
+		}
+	}
+	c.Ok(rule, "Sync tries every peer (random permutation) until one sync succeeds", c.P.Pos(fn.Pos()), okLoop && okPerm && okRet && okIdx,
+		fmt.Sprintf("tryNode in a loop: %v, over rand.Perm(len(nodes)): %v, nil only after tryNode returned true: %v, permutation and indexed list: %s", okLoop, okPerm, okRet, idxWhy))
 }
 
 func ruleCheckAndCorrect(c *Ctx, rule string) {
@@ -1456,4 +1487,76 @@ func rulePeerAttemptStartsAtHead(c *Ctx, rule string, tn *ssa.Function) {
 			"SyncRequest.FromRound origins: "+strings.Join(originStrings(Origins(fields["FromRound"])), ","))
 	}
 	c.Floor(rule, "sync requests built per peer attempt", n, 1)
+}
+
+// R5.13: the gate refuses a partial because of its round in two cases only: the round is beyond the next round of the
+// node's clock, or the round is already stored. After a halt the partials that restart the chain are for a round the
+// clock left long ago; a gate that also drops "old" rounds keeps every node below the threshold for ever.
+func ruleGateRefusesByRoundOnlyTwice(c *Ctx, rule string) {
+	c.ranRules[rule] = true
+	fn, inj := partialGate(c)
+	if !c.Anchor(rule, "gate function", fn != nil) {
+		return
+	}
+	var pkt *ssa.Parameter
+	for _, p := range fn.Params {
+		if typeShort(p.Type()) == "protobuf/drand.PartialBeaconPacket" {
+			pkt = p
+		}
+	}
+	if !c.Anchor(rule, "packet parameter of the gate", pkt != nil) {
+		return
+	}
+	isPacketRound := func(v ssa.Value) bool {
+		return pathOf(v) == pkt.Name()+".Round"
+	}
+	n := 0
+	for _, b := range fn.Blocks {
+		if len(b.Instrs) == 0 {
+			continue
+		}
+		iff, ok := b.Instrs[len(b.Instrs)-1].(*ssa.If)
+		if !ok {
+			continue
+		}
+		for si := range b.Succs {
+			e := edge{b, si}
+			// a refusing edge: the injection cannot be reached any more, while it can from the block
+			if reachableFrom(e.to(), func(edge) bool { return false })[inj.Block()] || !reachableFrom(b, func(edge) bool { return false })[inj.Block()] {
+				continue
+			}
+			for _, cj := range edgeConjuncts(e) {
+				lo, hi, strict, isOrd := ordForm(cj.cond, cj.truth)
+				if !isOrd || (!isPacketRound(lo) && !isPacketRound(hi)) {
+					continue
+				}
+				n++
+				ok2, why := false, ""
+				switch {
+				case isPacketRound(hi) && strict:
+					// next < round
+					ex, isEx := stripConv(lo).(*ssa.Extract)
+					if isEx {
+						if call, isCall := ex.Tuple.(*ssa.Call); isCall && strings.HasSuffix(calleeName(call), "common.NextRound") && ex.Index == 0 {
+							ok2, why = true, "refused when beyond the next round of the clock"
+						}
+					}
+					if !ok2 {
+						why = "refused when above " + trimTemps(pathOf(lo)) + ", which is not NextRound's round"
+					}
+				case isPacketRound(lo) && !strict:
+					// round <= head
+					if hasOrigin(Origins(hi), func(o Origin) bool { return o.Kind == "call" && strings.HasSuffix(o.Name, ".Last") }) || strings.HasSuffix(pathOf(hi), ".Round") && strings.Contains(pathOf(hi), "Last") {
+						ok2, why = true, "refused when not above the stored head"
+					} else {
+						why = "refused when not above " + trimTemps(pathOf(hi)) + ", which is not the stored head"
+					}
+				default:
+					why = fmt.Sprintf("refused when %s %s %s", trimTemps(pathOf(lo)), map[bool]string{true: "<", false: "<="}[strict], trimTemps(pathOf(hi)))
+				}
+				c.Ok(rule, "the gate refuses a partial by its round only when it is too far ahead or already stored", shortPos(c.P, iff), ok2, why)
+			}
+		}
+	}
+	c.Floor(rule, "refusals by round in the gate", n, 2)
 }
